@@ -119,7 +119,7 @@ theorem protected_step (L : Lawful P Ok) (H : Protects P Ok prot) {cfg : Cfg} (h
     {c : Cache σ} (hc : CacheInv P Ok cfg c) (r : Rec) (hr : Cache.protected prot c r) (op : Op) :
     (Reason.evict, r) ∉ (Cache.step P cfg c op).2.leaves ∧
     (Cache.protected prot (Cache.step P cfg c op).1 r ∨ op = .drop r.id ∨ op = .touch r.key ∨
-      op = .remove r.key ∨ (∃ v w h p, op = .ins r.key v w h p) ∨ op = .clear) := by
+      op = .remove r.key ∨ (∃ v w h p l a, op = .ins r.key v w h p l a) ∨ op = .clear) := by
   obtain ⟨i, s, hs, hrs⟩ := hr
   have hsi := hc.shard i s hs
   have hrm : r ∈ P.members s.ev := H.sub s.ev hsi.ok r hrs
@@ -147,7 +147,7 @@ theorem protected_step (L : Lawful P Ok) (H : Protects P Ok prot) {cfg : Cfg} (h
     rw [hprot] at this
     exact this hrs
   cases op with
-  | ins key ver weight hint phantom =>
+  | ins key ver weight hint phantom loc age =>
     simp only [Cache.step]
     split
     · exact ⟨by simp, Or.inl ⟨i, s, hs, hrs⟩⟩
@@ -158,11 +158,11 @@ theorem protected_step (L : Lawful P Ok) (H : Protects P Ok prot) {cfg : Cfg} (h
         rw [hs] at ht; cases ht
         by_cases hk : key = r.key
         · subst hk
-          refine ⟨?_, Or.inr (Or.inr (Or.inr (Or.inr (Or.inl ⟨ver, weight, hint, phantom, rfl⟩))))⟩
+          refine ⟨?_, Or.inr (Or.inr (Or.inr (Or.inr (Or.inl ⟨ver, weight, hint, phantom, loc, age, rfl⟩))))⟩
           -- `r` may leave as `replace`, never as `evict`
           cases phantom with
           | true =>
-            have sp := emplace_phantom_spec (r := { id := c.nextId, key := r.key, hash := cfg.H r.key, ver, weight, hint, phantom := true }) L hsi rfl
+            have sp := emplace_phantom_spec (r := { id := c.nextId, key := r.key, hash := cfg.H r.key, ver, weight, hint, phantom := true, loc, age }) L hsi rfl
             generalize Shard.emplace P s _ = res at sp
             obtain ⟨s', lv, pk⟩ := res
             intro hmem
@@ -256,12 +256,12 @@ theorem protected_step (L : Lawful P Ok) (H : Protects P Ok prot) {cfg : Cfg} (h
         have hrt : r ∈ t.index := by
           cases phantom with
           | true =>
-            have sp := emplace_phantom_spec (r := { id := c.nextId, key, hash := cfg.H key, ver, weight, hint, phantom := true }) L hti rfl
+            have sp := emplace_phantom_spec (r := { id := c.nextId, key, hash := cfg.H key, ver, weight, hint, phantom := true, loc, age }) L hti rfl
             generalize Shard.emplace P t _ = res at sp hmem
             obtain ⟨s', lv, pk⟩ := res
             exact absurd rfl (sp.2.2.2.2.2.2 Reason.evict r hmem)
           | false =>
-            have sp := emplace_spec (r := { id := c.nextId, key, hash := cfg.H key, ver, weight, hint, phantom := false }) L hti rfl
+            have sp := emplace_spec (r := { id := c.nextId, key, hash := cfg.H key, ver, weight, hint, phantom := false, loc, age }) L hti rfl
               (fun x hx => Nat.ne_of_lt (hc.fresh _ t ht x hx))
             generalize Shard.emplace P t _ = res at sp hmem
             obtain ⟨s', lv, pk⟩ := res
